@@ -403,7 +403,7 @@ def rule_pair_sync_flag(ctx):
             held = False
             held_line = None
             for e in p.events:
-                if e[0] != 'call' or not str(e[1]).startswith('std::sync::atomic::AtomicBool::'):
+                if e[0] != 'call' or not str(e[1]).startswith('std::sync::atomic::'):
                     continue
                 if not e[2] or not is_flag(e[2][0]):
                     continue
@@ -425,6 +425,8 @@ def rule_pair_sync_flag(ctx):
                     if val == ('c', True):
                         held, held_line = True, e[3]
                     elif val == ('c', False):
+                        if held:
+                            ctx.cache['pair_saw_reset'] = True
                         held = False
                     else:
                         held = True; held_line = e[3]
@@ -438,6 +440,8 @@ def rule_pair_sync_flag(ctx):
                           path=[fmt(c) + ' == ' + str(v) for c, v in p.conds],
                           expected='store(false) on every path after the successful compare_exchange')
     r.require_floor(2, 'paths through the flag-writing function(s)')
+    if not ctx.cache.get('pair_saw_reset'):
+        raise CheckFailure('PAIR-sync-flag: no path with a successful set followed by a reset was recognised (the rule would pass vacuously)')
     r.notes.append('writers of the flag: %s' % ', '.join('%s:%s' % (n, m) for n, m, _ in sites))
     r.assumptions.append('unwind paths (a panicking user Hash/Eq/Drop inside maintenance) are not analysed')
     return r
